@@ -64,6 +64,9 @@ type Spelling struct {
 	Quote string   `json:"quote"` // "'" or "\"" for strings without interpolation; "" = canonical
 	Comma bool     `json:"comma"` // trailing comma in lists and hashes
 	Trim  bool     `json:"trim"`  // add '-' markers to delimiters (only where no white space is adjacent)
+	// no separator between an alphabetic operator and a neighbouring token that cannot merge with it ("not-a", "a and'b'",
+	// "(a)or(b)"); with Seed != 0 such a position draws its separator from Seps, "" included
+	Compact bool `json:"compact"`
 }
 
 type unparser struct {
@@ -95,6 +98,37 @@ func (u *unparser) osep(canon string) string {
 	}
 	u.rng = u.rng*6364136223846793005 + 1442695040888963407
 	return u.sp.Seps[(u.rng>>33)%uint64(len(u.sp.Seps))]
+}
+
+func isWordByte(b byte) bool {
+	return b == '_' || (b >= '0' && b <= '9') || (b >= 'a' && b <= 'z') || (b >= 'A' && b <= 'Z') || b >= 0x80
+}
+
+// firstByte: the first byte of the rendering of an expression (it does not depend on the separators drawn)
+func (u *unparser) firstByte(n *Node) byte {
+	t := &unparser{sp: u.sp, rng: u.rng}
+	if n == nil || t.expr(n) != nil || t.buf.Len() == 0 {
+		return 'a'
+	}
+	return t.buf.Bytes()[0]
+}
+
+// wsep: the separator between an alphabetic operator and a neighbour whose adjacent byte is b
+func (u *unparser) wsep(b byte) string {
+	if isWordByte(b) {
+		return u.sep()
+	}
+	if u.sp.Compact {
+		return ""
+	}
+	return u.osep(" ")
+}
+
+func (u *unparser) lastByte() byte {
+	if u.buf.Len() == 0 {
+		return 'a'
+	}
+	return u.buf.Bytes()[u.buf.Len()-1]
 }
 
 func (u *unparser) w(s string) {
@@ -607,7 +641,7 @@ func (u *unparser) expr(n *Node) error {
 	case "un":
 		if wordOps[n.Op] {
 			u.wordOp(n.Op)
-			u.w(u.sep())
+			u.w(u.wsep(u.firstByte(n.X)))
 		} else {
 			u.w(n.Op)
 		}
@@ -617,9 +651,9 @@ func (u *unparser) expr(n *Node) error {
 			return err
 		}
 		if wordOps[n.Op] {
-			u.w(u.sep())
+			u.w(u.wsep(u.lastByte()))
 			u.wordOp(n.Op)
-			u.w(u.sep())
+			u.w(u.wsep(u.firstByte(n.R)))
 		} else {
 			// symbolic operators are always separated canonically: "1 - -1", "a ~ b"
 			u.w(u.sep())
